@@ -9,6 +9,8 @@ package search
 //     mtimes is recorded, scan() is run (panic recovered), and the observed toDrop / toLoad sets,
 //     timestamps map and shards map (key -> identity of the loaded content, read from the loaded shard's
 //     repository metadata) are recorded. The Coq model replays the listings and must agree at every step.
+//     Case encoding (compact): base names are interned per script (index into a name table), mtimes are
+//     exact ns offsets from the smallest mtime of the script.
 //   * Go oracle (independent of scan's code): newest supported version per builder-style name must be
 //     loaded with the CURRENT content, nothing else, a second scan is a no-op, every snapshot has one
 //     entry per key and one version per name, no panic.
@@ -65,7 +67,21 @@ func vfC19Meta(t testing.TB, k, j int) []byte {
 
 // identity of what a loaded shard serves: blob*100 + sidecar id. The blob is identified by a real search
 // on the shard (document name f<k>.txt), the sidecar by the repository metadata cached at load time.
+var vfC19IdCache = map[*rankedShard]uint64{}
+
 func vfC19Identity(r *rankedShard) uint64 {
+	if id, ok := vfC19IdCache[r]; ok && r != nil {
+		return id
+	}
+	id := vfC19IdentityUncached(r)
+	if len(vfC19IdCache) > 4096 {
+		vfC19IdCache = map[*rankedShard]uint64{}
+	}
+	vfC19IdCache[r] = id // r stays referenced here, so its address is not reused by another shard while cached
+	return id
+}
+
+func vfC19IdentityUncached(r *rankedShard) uint64 {
 	if r == nil || len(r.repos) == 0 {
 		return 99999
 	}
@@ -84,9 +100,75 @@ func vfC19Identity(r *rankedShard) uint64 {
 }
 
 type vfC19File struct {
-	blob       int // 0 = unloadable content
-	loadable   bool
-	staleRisk  string // set when the last change kept the effective mtime ("equal-mtime")
+	blob     int // 0 = unloadable content
+	loadable bool
+}
+
+// one step of a script as recorded for the Coq case (rendered at the end of the script: name table + offsets)
+type vfC19Ent struct {
+	name     string
+	mtime    int64
+	content  uint64
+	loadable bool
+}
+type vfC19StepRec struct {
+	listing      []vfC19Ent
+	panicked     bool
+	drops, loads []string
+	ts           []vfC19Ent // name, mtime
+	loaded       []vfC19Ent // name, content
+}
+
+func vfC19Render(cur, next int, dir string, recs []vfC19StepRec) string {
+	idx := map[string]int{}
+	var names []string
+	id := func(n string) string {
+		i, ok := idx[n]
+		if !ok {
+			i = len(names)
+			idx[n] = i
+			names = append(names, cStr(n))
+		}
+		return strconv.Itoa(i)
+	}
+	t0 := int64(0)
+	first := true
+	for _, s := range recs {
+		for _, e := range append(append([]vfC19Ent(nil), s.listing...), s.ts...) {
+			if first || e.mtime < t0 {
+				t0, first = e.mtime, false
+			}
+		}
+	}
+	off := func(m int64) string { return strconv.FormatInt(m-t0, 10) }
+	lst := func(xs []string, ty string) string {
+		if len(xs) == 0 {
+			return "(@nil " + ty + ")"
+		}
+		return "[" + strings.Join(xs, ";") + "]"
+	}
+	var steps []string
+	for _, s := range recs {
+		var l, d, ld, ts, lo []string
+		for _, e := range s.listing {
+			l = append(l, "("+id(e.name)+","+off(e.mtime)+","+strconv.FormatUint(e.content, 10)+","+cBool(e.loadable)+")")
+		}
+		for _, k := range s.drops {
+			d = append(d, id(k))
+		}
+		for _, k := range s.loads {
+			ld = append(ld, id(k))
+		}
+		for _, e := range s.ts {
+			ts = append(ts, "("+id(e.name)+","+off(e.mtime)+")")
+		}
+		for _, e := range s.loaded {
+			lo = append(lo, "("+id(e.name)+","+strconv.FormatUint(e.content, 10)+")")
+		}
+		steps = append(steps, fmt.Sprintf("(mkStep %s %s %s %s %s %s)", lst(l, "raw_ent"), cBool(s.panicked),
+			lst(d, "N"), lst(ld, "N"), lst(ts, "(N * N)"), lst(lo, "(N * N)")))
+	}
+	return fmt.Sprintf("(CScan %s %s %s %s %s %s)", cZ(int64(cur)), cZ(int64(next)), cStr(dir), cZ(t0), lst(names, "(list N)"), cList(steps))
 }
 
 type vfC19Recorder struct {
@@ -202,8 +284,8 @@ func vfC19Script(t *testing.T, r *vfRand, trial int) {
 		sort.Strings(ks)
 		return ks
 	}
-	putShard := func(base string, mt time.Time, risk string) string {
-		f := &vfC19File{staleRisk: risk}
+	putShard := func(base string, mt time.Time) string {
+		f := &vfC19File{}
 		var data []byte
 		if r.Chance(6) {
 			data = [][]byte{{}, []byte("garbage"), bytes.Repeat([]byte{0}, 64)}[r.Intn(3)]
@@ -221,9 +303,36 @@ func vfC19Script(t *testing.T, r *vfRand, trial int) {
 		}
 		return "put-unloadable"
 	}
-
+	// mtime for a file that replaces `base`: usually later than everything before; sometimes the SAME as the
+	// replaced file's (the watcher cannot notice: known blind spot); sometimes OLDER (rename keeps the temp
+	// file's mtime: out-of-order completion of two builds, restored files with preserved times, clock steps)
 	var classes = map[string]bool{}
-	var steps []string
+	replMtime := func(base string, pEqual, pOlder int) time.Time {
+		old, ok := mtimeOf(base)
+		if !ok {
+			return fresh()
+		}
+		switch c := r.Intn(100); {
+		case c < pEqual:
+			classes["equal-mtime-replace"] = true
+			return old
+		case c < pEqual+pOlder:
+			classes["older-mtime-replace"] = true
+			return old.Add(-time.Duration(1+r.Intn(3000)) * time.Millisecond)
+		}
+		return fresh()
+	}
+
+	// effective mtime (max of shard and sidecar) at the previous scan of every file that scan had to keep then: a
+	// file whose content changed while this value stayed the same cannot be noticed by a watcher that looks at
+	// mtimes only
+	prevEff := map[string]time.Time{}
+	blindSpot := func(base string) bool {
+		p, ok := prevEff[base]
+		return ok && p.Equal(effOf(base))
+	}
+
+	var recs []vfC19StepRec
 	var human []any
 	var failed = map[string]bool{}
 	fail := func(key, what string) {
@@ -246,24 +355,12 @@ func vfC19Script(t *testing.T, r *vfRand, trial int) {
 			switch c := r.Intn(100); {
 			case c < 30 || len(ex) == 0: // create (or overwrite) a builder-style shard
 				base := fmt.Sprintf("%s_v%d.%05d.zoekt", r.Pick(names), versions[r.Intn(len(versions))], r.Intn(2))
-				risk := ""
-				mt := fresh()
-				if _, ok := files[base]; ok && r.Chance(15) {
-					mt, _ = mtimeOf(base) // same mtime as the file it replaces
-					risk = "equal-mtime"
-					classes["equal-mtime-replace"] = true
-				}
-				ops = append(ops, putShard(base, mt, risk)+" "+base)
+				mt := replMtime(base, 12, 12)
+				ops = append(ops, fmt.Sprintf("%s %s @%d", putShard(base, mt), base, mt.Sub(base0).Milliseconds()))
 			case c < 50: // replace an existing shard by rename
 				base := ex[r.Intn(len(ex))]
-				mt := fresh()
-				risk := ""
-				if r.Chance(12) {
-					mt, _ = mtimeOf(base)
-					risk = "equal-mtime"
-					classes["equal-mtime-replace"] = true
-				}
-				ops = append(ops, "re"+putShard(base, mt, risk)+" "+base)
+				mt := replMtime(base, 10, 20)
+				ops = append(ops, fmt.Sprintf("re%s %s @%d", putShard(base, mt), base, mt.Sub(base0).Milliseconds()))
 			case c < 65: // delete
 				base := ex[r.Intn(len(ex))]
 				os.Remove(filepath.Join(dir, base))
@@ -275,44 +372,36 @@ func vfC19Script(t *testing.T, r *vfRand, trial int) {
 				ops = append(ops, "delete "+base)
 			case c < 80: // sidecar write
 				base := ex[r.Intn(len(ex))]
-				f := files[base]
 				j := 1 + r.Intn(90)
 				mt := fresh()
-				if r.Chance(10) { // older than (or equal to) what the watcher has seen: not noticed by design
+				if r.Chance(10) { // not later than what the watcher has seen: not noticed by design
 					mt = effOf(base)
-					f.staleRisk = "equal-mtime"
 					classes["equal-mtime-sidecar"] = true
-				} else {
-					f.staleRisk = ""
 				}
-				k := f.blob
-				write(base+".meta", vfC19Meta(t, k, j), mt)
+				write(base+".meta", vfC19Meta(t, files[base].blob, j), mt)
 				metas[base] = j
-				ops = append(ops, fmt.Sprintf("sidecar %s m=%d", base, j))
-			case c < 85: // sidecar delete
+				ops = append(ops, fmt.Sprintf("sidecar %s m=%d @%d", base, j, mt.Sub(base0).Milliseconds()))
+			case c < 88: // sidecar delete (the effective mtime falls back to the shard's when the sidecar was later)
 				base := ex[r.Intn(len(ex))]
 				if _, ok := metas[base]; ok {
-					shardM, _ := mtimeOf(base)
-					if !effOf(base).After(shardM) {
-						files[base].staleRisk = "equal-mtime"
-					} else {
-						files[base].staleRisk = ""
+					if shardM, _ := mtimeOf(base); effOf(base).After(shardM) {
+						classes["dominating-sidecar-deleted"] = true
 					}
 					os.Remove(filepath.Join(dir, base+".meta"))
 					delete(metas, base)
 					ops = append(ops, "sidecar-delete "+base)
 				}
-			case c < 90: // junk that must be ignored
+			case c < 92: // junk that must be ignored
 				base := r.Pick(junk)
 				write(base, []byte("junk"), fresh())
 				ops = append(ops, "junk "+base)
-			case c < 97: // oddly named *.zoekt
+			case c < 98: // oddly named *.zoekt
 				base := r.Pick(odd)
-				ops = append(ops, putShard(base, fresh(), "")+" "+base)
+				ops = append(ops, putShard(base, fresh())+" "+base)
 				classes["odd-name"] = true
 			default: // the last '_' directly followed by '.'
 				base := []string{"bad_.zoekt", "repoA_v16_.00000.zoekt"}[r.Intn(2)]
-				ops = append(ops, putShard(base, fresh(), "")+" "+base)
+				ops = append(ops, putShard(base, fresh())+" "+base)
 				classes["underscore-dot-name"] = true
 			}
 		}
@@ -322,19 +411,18 @@ func vfC19Script(t *testing.T, r *vfRand, trial int) {
 		if err != nil {
 			t.Fatal(err)
 		}
-		var listing []string
+		var sr vfC19StepRec
 		for _, de := range des {
 			fi, err := os.Lstat(filepath.Join(dir, de.Name()))
 			if err != nil {
 				t.Fatal(err)
 			}
-			var content uint64
-			loadable := false
+			e := vfC19Ent{name: de.Name(), mtime: fi.ModTime().UnixNano()}
 			if f, ok := files[de.Name()]; ok {
-				content = uint64(f.blob*100 + metas[de.Name()])
-				loadable = f.loadable
+				e.content = uint64(f.blob*100 + metas[de.Name()])
+				e.loadable = f.loadable
 			}
-			listing = append(listing, cTuple(cStr(de.Name()), cZ(fi.ModTime().UnixNano()), cN(content), cBool(loadable)))
+			sr.listing = append(sr.listing, e)
 		}
 
 		// ---- scan
@@ -368,9 +456,9 @@ func vfC19Script(t *testing.T, r *vfRand, trial int) {
 
 		// ---- observe
 		rel := func(p string) string { return strings.TrimPrefix(p, dir+"/") }
-		var tsRows, ldRows, dropRows, loadRows []string
+		sr.panicked = panicked != ""
 		for _, k := range vfSortedKeys(sw.timestamps) {
-			tsRows = append(tsRows, cTuple(cStr(rel(k)), cZ(sw.timestamps[k].UnixNano())))
+			sr.ts = append(sr.ts, vfC19Ent{name: rel(k), mtime: sw.timestamps[k].UnixNano()})
 		}
 		ss.mu.Lock()
 		loadedNow := map[string]uint64{}
@@ -379,15 +467,15 @@ func vfC19Script(t *testing.T, r *vfRand, trial int) {
 		}
 		ss.mu.Unlock()
 		for _, k := range vfSortedKeys(loadedNow) {
-			ldRows = append(ldRows, cTuple(cStr(k), cN(loadedNow[k])))
+			sr.loaded = append(sr.loaded, vfC19Ent{name: k, content: loadedNow[k]})
 		}
 		sort.Strings(drops)
 		sort.Strings(loads)
 		for _, k := range drops {
-			dropRows = append(dropRows, cStr(rel(k)))
+			sr.drops = append(sr.drops, rel(k))
 		}
 		for _, k := range loads {
-			loadRows = append(loadRows, cStr(rel(k)))
+			sr.loads = append(sr.loads, rel(k))
 		}
 		if len(drops) > 0 {
 			classes["drop"] = true
@@ -395,14 +483,7 @@ func vfC19Script(t *testing.T, r *vfRand, trial int) {
 		if len(loads) > 0 && step > 0 {
 			classes["reload"] = true
 		}
-		lst := func(xs []string, ty string) string {
-			if len(xs) == 0 {
-				return "(@nil " + ty + ")"
-			}
-			return cList(xs)
-		}
-		steps = append(steps, fmt.Sprintf("(mkStep %s %s %s %s %s %s)", lst(listing, "raw_ent"), cBool(panicked != ""),
-			lst(dropRows, "(list N)"), lst(loadRows, "(list N)"), lst(tsRows, "(list N * Z)"), lst(ldRows, "(list N * N)")))
+		recs = append(recs, sr)
 
 		if panicked != "" {
 			continue
@@ -413,6 +494,7 @@ func vfC19Script(t *testing.T, r *vfRand, trial int) {
 			maxSup = index.NextIndexFormatVersion
 		}
 		newest := map[string]int{}
+		wantedEff := map[string]time.Time{}
 		for base := range files {
 			if m := vfC19Builder.FindStringSubmatch(base); m != nil {
 				v, _ := strconv.Atoi(m[2])
@@ -428,17 +510,25 @@ func vfC19Script(t *testing.T, r *vfRand, trial int) {
 			}
 			v, _ := strconv.Atoi(m[2])
 			want := v <= maxSup && v == newest[m[1]]
+			if want {
+				wantedEff[base] = effOf(base)
+			}
 			got, isLoaded := loadedNow[base]
+			onDisk := uint64(f.blob*100 + metas[base])
 			switch {
+			case want && f.loadable && (!isLoaded || got != onDisk) && blindSpot(base):
+				// the content (shard or sidecar) changed while the effective mtime stayed what it was at the previous
+				// scan: the known blind spot of an mtime-based watcher
+				classes["stale-equal-mtime"] = true
+				fail("stale:equal-mtime", fmt.Sprintf("%s was replaced (or its sidecar changed) without changing the effective mtime; the watcher keeps serving the old content (loaded identity %d, on disk %d)", base, got, onDisk))
 			case want && f.loadable && !isLoaded:
 				fail("not-loaded", "newest supported shard on disk is not loaded after scan: "+base)
-			case want && f.loadable && got != uint64(f.blob*100+metas[base]):
-				if f.staleRisk != "" {
-					classes["stale-"+f.staleRisk] = true
-					fail("stale:"+f.staleRisk, fmt.Sprintf("%s was replaced (or its sidecar changed) without changing the effective mtime; the watcher keeps serving the old content (loaded identity %d, on disk %d)", base, got, f.blob*100+metas[base]))
-				} else {
-					fail("stale:other", fmt.Sprintf("%s: loaded identity %d differs from the content on disk %d", base, got, f.blob*100+metas[base]))
+			case want && f.loadable && got != onDisk:
+				what := fmt.Sprintf("%s: loaded identity %d differs from the content on disk %d", base, got, onDisk)
+				if p, ok := prevEff[base]; ok && effOf(base).Before(p) {
+					what += " (its effective mtime went BACK since the previous scan: replaced by an older file, or a later sidecar was removed)"
 				}
+				fail("stale:other", what)
 			case want && !f.loadable && isLoaded:
 				classes["kept-after-failed-reload"] = true
 			case !want && isLoaded:
@@ -458,13 +548,14 @@ func vfC19Script(t *testing.T, r *vfRand, trial int) {
 		if len(rec.drops)+len(rec.loads) > 0 {
 			fail("rescan-not-noop", fmt.Sprintf("second scan of an unchanged directory drops %v and loads %v", rec.drops, rec.loads))
 		}
+		prevEff = wantedEff
 	}
 
 	var cls []string
 	for _, k := range vfSortedKeys(classes) {
 		cls = append(cls, k)
 	}
-	coq := fmt.Sprintf("(CScan %s %s %s %s)", cZ(int64(index.IndexFormatVersion)), cZ(int64(index.NextIndexFormatVersion)), cStr(dir), cList(steps))
+	coq := vfC19Render(index.IndexFormatVersion, index.NextIndexFormatVersion, dir, recs)
 	nontrivial := classes["drop"] && classes["reload"]
 	vfCase(coq, vfKey(human), nontrivial, append(cls, "script"), map[string]any{"dir": dir, "history": human})
 }
@@ -518,5 +609,15 @@ func TestVerifC19(t *testing.T) {
 	}
 	for i := 0; i < 4*n; i++ {
 		vfC19Vfp(t, r)
+	}
+	// notification loop scenarios against the real watcher (zz_verif_c19watch_test.go); own PRNG stream so that the
+	// script cases above do not depend on how many scenario trials run
+	rw := vfNewRand(vfSeed() + 7919)
+	nw := 2
+	if vfTier() == "thorough" {
+		nw = 8
+	}
+	for i := 0; i < nw; i++ {
+		vfC19Watch(t, rw, i)
 	}
 }
